@@ -7,7 +7,12 @@ one chain-backed sub-directory (cluster = 16 slots; it grows into the next, cont
 by `clock ...` and the same date/time goes into the model's create_sfn_entry (Model/Time.v stamp_create).  After every op the
 directory region is dumped from the device and compared BYTE FOR BYTE with the slots the extracted model computes from the
 region before the op (the model is re-synchronised on the implementation's region after every op, so one divergence does
-not cascade).  Failing calls are compared too (outcome and the slots they leave, e.g. the partial run of a WriteZero).
+not cascade).  Failing calls are compared too (outcome and the slots they leave).
+FULL FIXED ROOT: besides the mixed histories, "fill" histories run in a 16-entry root: long-named creates until create_file /
+create_dir / rename return NotEnoughSpace, then more creates and renames of varying slot counts and a few removes, so
+that the capacity test of find_free_entries (13fd5fe: NotEnoughSpace BEFORE anything is written, formerly WriteZero after a
+partial run) and the write-then-delete order of rename (d9f4de8: a failed rename keeps the source) are compared at and around
+the boundary (run ends exactly at the last slot / one slot too long / fits only into a deleted run).
 The cluster number stored by create_dir comes from the allocator (layer B) and is read off the implementation's slot;
 whether a directory being removed is empty is a fact of ANOTHER directory and is taken from the implementation's outcome.
 
@@ -25,7 +30,12 @@ Directly on the implementation's regions (independent of the model) the extracte
 while the region had no issue before an op that succeeded, it has none after, and the number of decoded entries moves by
 +1 (new entry) / 0 (already exists, rename) / -1 (remove); after a successful rename the region holds an entry stored under
 exactly the destination spelling (long name = UTF-16 of the name, or - without long name - rendered short name = the
-bytes of the name), whatever the destination resolved to before."""
+bytes of the name), whatever the destination resolved to before.
+Also model-independent, on every FAILED call (r err): in a fixed root the directory region after the call is byte-identical
+to the region before it (create_file, create_dir, rename, remove; in the chain-backed sub-directory the same unless the
+error is NotEnoughSpace, the recorded class "nospace during entry write"); and after every failed rename the library's own
+listing (`list`) of the directory is exactly what it was before the call - in particular the source name is still
+listed."""
 import re
 import vlib, namelib, fatimg
 from vlib import hexs
@@ -114,6 +124,91 @@ def gen_ops(rng, nops, prefix, allow_dirs, planted):
     return ops
 
 
+FILL_LENS = [1, 5, 12, 13, 14, 20, 26, 27, 30, 39, 40, 45, 52, 53, 60, 65, 66, 70]     # name lengths: 2 .. 7 slots
+
+
+class RootShadow:
+    """slot occupancy of a fixed root, only to AIM the fill histories (which names are live, is the root full): 'U' used,
+    'D' deleted, 'E' never used; place() follows Dir::find_free_entries + the capacity test"""
+    def __init__(self, nslots, used):
+        self.s = ["U"] * used + ["E"] * (nslots - used)
+        self.where = {}
+
+    @staticmethod
+    def need(name):
+        return -(-len(name.encode("utf-16-le")) // 26) + 1
+
+    def place(self, name):
+        num = self.need(name)
+        first = nfree = 0
+        pos = None
+        for i, c in enumerate(self.s + ["E"]):
+            if c == "E":
+                if nfree == 0:
+                    first = i
+                pos = first if first + num <= len(self.s) else None
+                break
+            if c == "D":
+                if nfree == 0:
+                    first = i
+                nfree += 1
+                if nfree == num:
+                    pos = first
+                    break
+            else:
+                nfree = 0
+        if pos is None:
+            return False
+        for i in range(pos, pos + num):
+            self.s[i] = "U"
+        self.where[name] = (pos, num)
+        return True
+
+    def drop(self, name):
+        pos, num = self.where.pop(name)
+        for i in range(pos, pos + num):
+            self.s[i] = "D"
+
+
+def gen_fill_ops(rng, nops, nslots):
+    """a history that fills a small fixed root: mostly creates of fresh long names (2..7 slots each), renames of live entries to
+    fresh names of another length, few removes; the root is full after a handful of ops and stays near the boundary"""
+    sh = RootShadow(nslots, len(PLANTED))
+    live = []                                # names created by this history that the shadow believes to exist
+    ops = []
+    serial = [0]
+
+    def fresh():
+        serial[0] += 1
+        n = rng.choice(FILL_LENS)
+        stem = "f%d" % serial[0]
+        return stem if n <= len(stem) else stem + "_" * (n - len(stem) - 1) + "z"
+    for _ in range(nops):
+        r = rng.below(100)
+        full = "E" not in sh.s
+        if not live or r < (25 if full else 50):
+            nm = fresh()
+            ops.append(("create_dir" if rng.chance(1, 6) else "create_file", nm))
+            if sh.place(nm):
+                live.append(nm)
+        elif r < (75 if full else 88):
+            s = rng.choice(live)
+            how = rng.below(10)
+            if how < 7:
+                d = fresh()
+            elif how < 9:
+                d = s.swapcase()             # same entry, other spelling: needs room for a second copy of the entry
+            else:
+                d = rng.choice(live)         # another entry's name (AlreadyExists) or the identical spelling
+            ops.append(("rename", s, d))
+            if d not in live and sh.place(d):        # the new entry first (the source is still there), then the source goes
+                sh.drop(s); live.remove(s); live.append(d)
+        else:
+            t = rng.choice(live)
+            ops.append(("remove", t)); live.remove(t); sh.drop(t)
+    return ops
+
+
 def alias_of(region_hex, name):
     """rendered short name ("NAME.EXT") of the first entry of a dumped directory region that `name` resolves to - by python's
     approximation of the library's case-insensitive match, used only to AIM a rename - or None"""
@@ -161,16 +256,18 @@ def resolve_ops(ops, prefix, aliases):
     return out
 
 
-def build_script(conf, ops, region_dump, prelude, pokes):
-    """-> lines, marks (index of every op line and of its dump line), index of the first dump"""
-    lines = ["dev %d 0" % conf[1], "wlog 0", conf[2]] + pokes + ["clock 2024 2 29 13 37 59 990", "mount 1 0 lossy"] + prelude + [region_dump]
-    first_dump = len(lines) - 1
-    marks = []            # index of the op line and of its dump line
+def build_script(conf, ops, region_dump, prelude, pokes, sub=False):
+    """-> lines, marks (index of every op line, of its dump line and of its `list` line), index of the first dump (the first
+    `list` is the line after it, or two lines after it in a sub-directory history)"""
+    lister = ["open_dir 0 %s 2" % hexs("d"), "list 2", "drop_dir 2"] if sub else ["list 0"]
+    lines = ["dev %d 0" % conf[1], "wlog 0", conf[2]] + pokes + ["clock 2024 2 29 13 37 59 990", "mount 1 0 lossy"] + prelude + [region_dump] + lister
+    first_dump = len(lines) - 1 - len(lister)
+    marks = []            # index of the op line, of its dump line, of its list line
     h = 10
     for op in ops:
         if op[0] == "clock":
             lines.append("clock %d %d %d %d %d %d %d" % op[1:])
-            marks.append((len(lines) - 1, None))
+            marks.append((len(lines) - 1, None, None))
             continue
         if op[0] == "create_file":
             lines.append("create_file 0 %s %d" % (hexs(op[1]), h)); i = len(lines) - 1
@@ -183,7 +280,9 @@ def build_script(conf, ops, region_dump, prelude, pokes):
         else:
             lines.append("rename 0 %s 0 %s" % (hexs(op[1]), hexs(op[2]))); i = len(lines) - 1
         lines.append(region_dump)
-        marks.append((i, len(lines) - 1))
+        di = len(lines) - 1
+        lines += lister
+        marks.append((i, di, len(lines) - (2 if sub else 1)))
     return lines, marks, first_dump
 
 
@@ -225,23 +324,44 @@ def stored_exactly(scan_line, name):
     return False
 
 
+def listed_as(e_line, name):
+    """is `name` the long name or the rendered short name (ASCII case-insensitively) of a `list` entry line
+    ("<lfn u16 hex|-> <short hex> ...")"""
+    t = e_line.split() if isinstance(e_line, str) else list(e_line)
+    if t and t[0] == "e":
+        t = t[1:]
+    if len(t) < 2:
+        return False
+    try:
+        lfn = bytes.fromhex(t[0]).decode("utf-16-be", "replace") if t[0] != "-" else None
+        short = bytes.fromhex(t[1]).decode("latin-1")
+    except ValueError:
+        return False
+    return (lfn is not None and lfn.upper() == name.upper()) or short.upper() == name.upper()
+
+
 def walk(job, res, visit):
     """the region before and after every compared op of one history: visit(op index, op, before region, after region, impl result,
-    model directory kind).  The model is re-synchronised on the implementation's region after every op."""
+    model directory kind, listing before, listing after).  The model is re-synchronised on the implementation's region after
+    every op.  A listing is the list of `e` lines of the library's own `list` of the directory (None: not available)."""
     ci, sub, prefix, ops, lines, marks, first_dump, cslots = job
     cur = res[first_dump].payload.split()[0] if res[first_dump].kind == "ok" else None
+    l0 = res[first_dump + (2 if sub else 1)]
+    cur_list = list(l0.extra) if l0.kind == "ok" else None
     cur_len = cslots * 64 if sub else None          # hex length of the allocated part of the chain
     for oi, op in enumerate(ops):
-        li, di = marks[oi]
+        li, di, lsi = marks[oi]
         if op[0] == "clock":
-            visit(oi, op, None, None, None, None)
+            visit(oi, op, None, None, None, None, None, None)
             continue
         if cur is None or res[li].kind in ("skipped", "bad", "hang") or res[di].kind != "ok":
             break
         after = res[di].payload.split()[0]
+        after_list = list(res[lsi].extra) if res[lsi].kind == "ok" else None
         before_region = cur[:cur_len] if sub else cur
-        visit(oi, op, before_region, after, res[li], ("chain:%d:1000" % cslots) if sub else "root")
+        visit(oi, op, before_region, after, res[li], ("chain:%d:1000" % cslots) if sub else "root", cur_list, after_list)
         cur = after
+        cur_list = after_list
         if sub and after[cur_len:].strip("0") != "":
             used = len(after.rstrip("0"))               # the directory grew: whole clusters up to the last written byte
             cur_len = -(-used // (cslots * 64)) * (cslots * 64)
@@ -270,6 +390,14 @@ def run_stream(rep, tier, seed):
             ops = gen_ops(rng, nops, "", True, True)
             pokes = ["poke %d %s" % (g.root_off, planted_slots().hex())]      # short-only entries, before mount
         gens.append((ci, sub, "d/" if sub else "", ops, dump, prelude, pokes))
+    # fill histories: the 16-entry fixed roots, driven to NotEnoughSpace and kept at the boundary
+    nfill = 2 if tier == "quick" else 24
+    for i in range(nfill):
+        ci = (0, 2)[i % 2]
+        g = geoms[ci]
+        assert g.root_entries * 32 == g.root_sectors * g.bps        # the dumped region is the whole DiskSlice of the root
+        gens.append((ci, False, "", gen_fill_ops(rng, nops, g.root_entries), "dump %d %d" % (g.root_off, g.root_entries * 32), [],
+                     ["poke %d %s" % (g.root_off, planted_slots().hex())]))
     # the histories are run until the aliases the rename_alias ops aim at are those of the run itself
     aliases = [dict() for _ in gens]
     passes = 0
@@ -277,7 +405,7 @@ def run_stream(rep, tier, seed):
         jobs = []
         for gi, (ci, sub, prefix, ops, dump, prelude, pokes) in enumerate(gens):
             rops = resolve_ops(ops, prefix, aliases[gi])
-            lines, marks, first_dump = build_script(CONFS[ci], rops, dump, prelude, pokes)
+            lines, marks, first_dump = build_script(CONFS[ci], rops, dump, prelude, pokes, sub)
             jobs.append((ci, sub, prefix, rops, lines, marks, first_dump, geoms[ci].cluster_size // 32))
         results = vlib.run_scripts([j[4] for j in jobs])
         passes += 1
@@ -285,7 +413,7 @@ def run_stream(rep, tier, seed):
         for gi, job in enumerate(jobs):
             gops = gens[gi][3]
 
-            def see(oi, op, before, after, ir, kind, gi=gi, gops=gops):
+            def see(oi, op, before, after, ir, kind, lb, la, gi=gi, gops=gops):
                 if gops[oi][0] == "rename_alias":
                     a = alias_of(before, gops[oi][2])
                     if a is not None:
@@ -305,7 +433,7 @@ def run_stream(rep, tier, seed):
         strip = (lambda p: p[2:]) if sub else (lambda p: p)
         state = {"clock": (2024, 2, 29, 13, 37, 59, 990)}
 
-        def plan_op(oi, op, before_region, after, ir, kind, ji=ji, strip=strip, state=state):
+        def plan_op(oi, op, before_region, after, ir, kind, lb, la, ji=ji, strip=strip, state=state):
             if op[0] == "clock":
                 state["clock"] = op[1:]
                 return
@@ -322,7 +450,7 @@ def run_stream(rep, tier, seed):
                 ml = "remove %s %s %d" % (before_region, hexs(strip(op[1])), ne)
             else:
                 ml = "rename %s %s %s %s" % (kind, before_region, hexs(strip(op[1])), hexs(strip(op[2])))
-            mlines.append(ml); plan.append((ji, oi, before_region, after, ir, "scan"))
+            mlines.append(ml); plan.append((ji, oi, before_region, after, ir, (lb, la)))
             mlines.append("scan 0 " + before_region); plan.append(None)
             mlines.append("scan 0 " + after); plan.append(None)
             dist[op[0]] = dist.get(op[0], 0) + 1
@@ -333,9 +461,11 @@ def run_stream(rep, tier, seed):
     ndirect = 0
     kinds = {}
     paths = {}
+    nfailed = {}
+    full_root = {}
     k = 0
     while k < len(plan):
-        ji, oi, before, after, ir, _ = plan[k]
+        ji, oi, before, after, ir, (lb, la) = plan[k]
         mo, sb, sa = out[k].split(), out[k + 1], out[k + 2]
         k += 3
         ci, sub, prefix, ops, lines, marks, _, _ = jobs[ji]
@@ -357,6 +487,25 @@ def run_stream(rep, tier, seed):
                     rep.violation("rename %r -> %r returned Ok but the directory holds no entry stored under the spelling %r "
                                   "(a rename onto another spelling of the entry's own name, or onto its alias, must store the new spelling: D22)"
                                   % (op[1], op[2], dst), {"script": lines[:marks[oi][1] + 1]})
+        # ---- failed calls, directly on the implementation (independent of the model)
+        if ir.kind == "err":
+            ekind = ir.payload.split()[0] if ir.payload else "?"
+            nfailed[(op[0], ekind, "sub" if sub else "root")] = nfailed.get((op[0], ekind, "sub" if sub else "root"), 0) + 1
+            changed = (after != before) if not sub else (after[:len(before)] != before or after[len(before):].strip("0") != "")
+            if changed and not (sub and ekind == "NotEnoughSpace"):
+                ndirect += 1
+                diff = next((x // 64 for x in range(0, max(len(after), len(before)), 64) if after[x:x + 64] != before[x:x + 64]), None)
+                rep.violation("%s %r failed with %s but changed the directory region of the %s (first differing slot %s): a failed call "
+                              "must leave the directory as it was (fixed root: NotEnoughSpace must be reported before anything is written)"
+                              % (op[0], op[1:], ekind, "sub-directory" if sub else "fixed root", diff), {"script": lines[:marks[oi][1] + 1]})
+            if op[0] == "rename" and lb is not None and la is not None and la != lb:
+                ndirect += 1
+                srcname = op[1][len(prefix):]
+                was = [e for e in lb if listed_as(e, srcname)]
+                now = [e for e in la if listed_as(e, srcname)]
+                rep.violation("rename %r -> %r failed with %s but the listing of the directory changed (%d -> %d entries; source listed "
+                              "before: %s, after: %s): a failed rename must keep the source entry"
+                              % (op[1], op[2], ekind, len(lb), len(la), bool(was), bool(now)), {"script": lines[:marks[oi][2] + 1]})
         # ---- model vs implementation: outcome and bytes
         mtag = mo[0]
         if mtag == "err":
@@ -367,6 +516,8 @@ def run_stream(rep, tier, seed):
         impl_region = after[:len(mregion)] if sub else after
         rest_zero = (after[len(mregion):].strip("0") == "") if sub else True
         kinds[mtag] = kinds.get(mtag, 0) + 1
+        if not sub and mtag == "err NotEnoughSpace":
+            full_root[op[0]] = full_root.get(op[0], 0) + 1
         if not same_outcome or impl_region != mregion or not rest_zero:
             nviol += 1
             if nviol <= 3:
@@ -383,5 +534,7 @@ def run_stream(rep, tier, seed):
     rep.cov["cdir_correspondence"] = {"ops_compared": len(plan) // 3, "disagreements": nviol, "op_kinds": dist, "model_outcomes": kinds,
                                       "successful_renames_by_destination": paths,
                                       "renames_aimed_at_own_alias": {"generated": n_alias_ops, "alias_found": n_alias_hit, "passes": passes},
-                                      "histories": nscripts, "configs": [c[0] for c in CONFS] + ["sub-directory (chain, 16 slots/cluster)"]}
+                                      "failed_calls_checked_directly": {"%s %s %s" % k3: v for k3, v in sorted(nfailed.items())},
+                                      "fixed_root_full_NotEnoughSpace": full_root, "fill_histories": nfill,
+                                      "histories": nscripts + nfill, "configs": [c[0] for c in CONFS] + ["sub-directory (chain, 16 slots/cluster)"]}
     return nviol
